@@ -12,13 +12,21 @@
     0 is the zero UID).  Go maps are association lists without duplicate keys;
     the sorted subnet map is an association list kept in [subnet_compare]
     order (keys slice and value map of aghalg.SortedMap fused). *)
-From AGH Require Import Base.Run.
+From Coq Require Import ZArith.
+From AGH Require Import Base.Run Base.Bytes.
+From AGH Require Model.Schedule.
+From AGH Require Export Model.ClientValidate.
 Local Open Scope N_scope.
 
 Definition uid := N.
 Definition addr := (bytes * bytes)%type.
 Definition addr_eqb (a b : addr) : bool := eqb_bytes (fst a) (fst b) && eqb_bytes (snd a) (snd b).
 Definition prefix := (bytes * N)%type.
+
+(** filtering.BlockedServices: service ids and the pause schedule
+    ([Model/Schedule.v]; the zone is a number, its offset function comes from
+    the environment).  A nil pointer is [None] at the use sites. *)
+Record blocked := { b_ids : list bytes; b_sched : Schedule.weekly; b_zone : N }.
 
 Record client := {
   c_uid : uid;
@@ -33,9 +41,11 @@ Record client := {
   c_safebrowsing : bool;
   c_parental : bool;
   c_own_blocked : bool;
-  c_blocked : option (list bytes);    (* BlockedServices (nil pointer = None): service ids *)
+  c_blocked : option blocked;         (* BlockedServices (nil pointer = None) *)
   c_ignore_qlog : bool;
-  c_ignore_stats : bool
+  c_ignore_stats : bool;
+  c_tags : list bytes;
+  c_upstreams : list bytes            (* the lines of Upstreams *)
 }.
 
 Definition set_uid (u : uid) (c : client) : client :=
@@ -44,7 +54,17 @@ Definition set_uid (u : uid) (c : client) : client :=
      c_filtering := c_filtering c; c_safesearch := c_safesearch c;
      c_safebrowsing := c_safebrowsing c; c_parental := c_parental c;
      c_own_blocked := c_own_blocked c; c_blocked := c_blocked c;
-     c_ignore_qlog := c_ignore_qlog c; c_ignore_stats := c_ignore_stats c |}.
+     c_ignore_qlog := c_ignore_qlog c; c_ignore_stats := c_ignore_stats c;
+     c_tags := c_tags c; c_upstreams := c_upstreams c |}.
+
+Definition set_tags (ts : list bytes) (c : client) : client :=
+  {| c_uid := c_uid c; c_name := c_name c; c_cids := c_cids c; c_ips := c_ips c;
+     c_subnets := c_subnets c; c_macs := c_macs c; c_own_settings := c_own_settings c;
+     c_filtering := c_filtering c; c_safesearch := c_safesearch c;
+     c_safebrowsing := c_safebrowsing c; c_parental := c_parental c;
+     c_own_blocked := c_own_blocked c; c_blocked := c_blocked c;
+     c_ignore_qlog := c_ignore_qlog c; c_ignore_stats := c_ignore_stats c;
+     c_tags := ts; c_upstreams := c_upstreams c |}.
 
 (** * Association lists (Go maps) *)
 Section AL.
@@ -161,7 +181,10 @@ Definition index_remove (c : client) (ix : index) : index :=
      by_uid := al_del N.eqb (c_uid c) (by_uid ix) |}.
 
 Inductive err :=
-  | EOk | EValidate | EUid | EName | ECid | EIP | ESubnet | EMac | ENotFound.
+  | EOk | EValidate | EUid | EName | ECid | EIP | ESubnet | EMac | ENotFound
+  | EUpstream      (* "invalid upstream servers" *)
+  | ETag           (* "invalid tag" *)
+  | EPanic.        (* the call panicked (dnsproxy's parseLine, see Model/ClientValidate.v) *)
 
 (** index.clashes: name, ClientIDs, IPs, subnets, MACs, in this order. *)
 Definition clashes (c : client) (ix : index) : err :=
@@ -177,37 +200,68 @@ Definition deref (ix : index) (u : uid) : option client := al_get N.eqb u (by_ui
 Definition ids_len (c : client) : nat :=
   (length (c_ips c) + length (c_subnets c) + length (c_macs c) + length (c_cids c))%nat.
 
-(** Persistent.validate, the part without upstreams and tags. *)
-Definition validate (c : client) : bool :=
-  negb (Nat.eqb (length (c_name c)) 0) && negb (Nat.eqb (ids_len c) 0) && negb (c_uid c =? 0).
+(** slices.Sort on strings (byte order): insertion sort. *)
+Fixpoint ins_name (n : bytes) (l : list bytes) : list bytes :=
+  match l with
+  | [] => [n]
+  | x :: l' => match cmp_bytes n x with Lt => n :: l | _ => x :: ins_name n l' end
+  end.
+Definition sort_names (l : list bytes) : list bytes := fold_right ins_name [] l.
+
+(** What the storage is configured with: its sorted list of allowed tags and
+    the oracle for [upstream.AddressToUpstream] succeeding on a token. *)
+Record config := { cfg_tags : list bytes; cfg_addr_ok : bytes -> bool }.
+
+(** Persistent.validate: name, identifiers, uid; then the upstream lines
+    (error or panic); then the tags, in this order. *)
+Definition validate (cfg : config) (c : client) : err :=
+  if Nat.eqb (length (c_name c)) 0 then EValidate
+  else if Nat.eqb (ids_len c) 0 then EValidate
+  else if c_uid c =? 0 then EValidate
+  else match parse_upstreams (cfg_addr_ok cfg) (c_upstreams c) with
+       | LPanic => EPanic
+       | LErr => EUpstream
+       | LOk => if forallb (tag_ok (cfg_tags cfg)) (c_tags c) then EOk else ETag
+       end.
+
+(** ... and on success the tags of the record are sorted in place. *)
+Definition normalize (c : client) : client := set_tags (sort_names (c_tags c)) c.
 
 (** Storage.Add *)
-Definition add (c : client) (ix : index) : index * err :=
-  if negb (validate c) then (ix, EValidate) else
-  match deref ix (c_uid c) with
-  | Some _ => (ix, EUid)
-  | None =>
-      match clashes c ix with
-      | EOk => (index_add c ix, EOk)
-      | e => (ix, e)
-      end
-  end.
-
-(** Storage.Update *)
-Definition update (name : bytes) (c : client) (ix : index) : index * err :=
-  if negb (validate c) then (ix, EValidate) else
-  match bget name (name_to ix) with
-  | None => (ix, ENotFound)
-  | Some u =>
-      match deref ix u with
-      | None => (ix, ENotFound)     (* nil pointer in Go; excluded by the invariant *)
-      | Some stored =>
-          let p := set_uid (c_uid stored) c in
-          match clashes p ix with
-          | EOk => (index_add p (index_remove stored ix), EOk)
+Definition add (cfg : config) (c : client) (ix : index) : index * err :=
+  match validate cfg c with
+  | EOk =>
+      let c := normalize c in
+      match deref ix (c_uid c) with
+      | Some _ => (ix, EUid)
+      | None =>
+          match clashes c ix with
+          | EOk => (index_add c ix, EOk)
           | e => (ix, e)
           end
       end
+  | e => (ix, e)
+  end.
+
+(** Storage.Update *)
+Definition update (cfg : config) (name : bytes) (c : client) (ix : index) : index * err :=
+  match validate cfg c with
+  | EOk =>
+      let c := normalize c in
+      match bget name (name_to ix) with
+      | None => (ix, ENotFound)
+      | Some u =>
+          match deref ix u with
+          | None => (ix, ENotFound)     (* nil pointer in Go; excluded by the invariant *)
+          | Some stored =>
+              let p := set_uid (c_uid stored) c in
+              match clashes p ix with
+              | EOk => (index_add p (index_remove stored ix), EOk)
+              | e => (ix, e)
+              end
+          end
+      end
+  | e => (ix, e)
   end.
 
 (** Storage.RemoveByName *)
@@ -226,15 +280,15 @@ Inductive op :=
   | OUpdate (name : bytes) (c : client)
   | ORemove (name : bytes).
 
-Definition step (ix : index) (o : op) : index * err :=
+Definition step (cfg : config) (ix : index) (o : op) : index * err :=
   match o with
-  | OAdd c => add c ix
-  | OUpdate n c => update n c ix
+  | OAdd c => add cfg c ix
+  | OUpdate n c => update cfg n c ix
   | ORemove n => remove_by_name n ix
   end.
 
-Definition run (ops : list op) (ix : index) : index :=
-  fold_left (fun ix o => fst (step ix o)) ops ix.
+Definition run (cfg : config) (ops : list op) (ix : index) : index :=
+  fold_left (fun ix o => fst (step cfg ix o)) ops ix.
 
 (** * Lookups (uid level; [deref] gives the record) *)
 Definition find_by_name (ix : index) (n : bytes) : option uid := bget n (name_to ix).
@@ -294,17 +348,21 @@ Record settings := {
   s_safesearch : bool;
   s_safebrowsing : bool;
   s_parental : bool;
-  s_blocked : option (list bytes)
+  s_blocked : option blocked;         (* Settings.BlockedServices *)
+  s_tags : list bytes;                (* Settings.ClientTags *)
+  s_services : list bytes             (* names of Settings.ServicesRules *)
 }.
 
 Definition apply_client (c : client) (g : settings) : settings :=
   let blocked := if c_own_blocked c then c_blocked c else s_blocked g in
   if c_own_settings c then
     {| s_client_name := c_name c; s_filtering := c_filtering c; s_safesearch := c_safesearch c;
-       s_safebrowsing := c_safebrowsing c; s_parental := c_parental c; s_blocked := blocked |}
+       s_safebrowsing := c_safebrowsing c; s_parental := c_parental c; s_blocked := blocked;
+       s_tags := c_tags c; s_services := s_services g |}
   else
     {| s_client_name := c_name c; s_filtering := s_filtering g; s_safesearch := s_safesearch g;
-       s_safebrowsing := s_safebrowsing g; s_parental := s_parental g; s_blocked := blocked |}.
+       s_safebrowsing := s_safebrowsing g; s_parental := s_parental g; s_blocked := blocked;
+       s_tags := c_tags c; s_services := s_services g |}.
 
 (** Storage.ApplyClientFiltering.  [None]: Go would dereference a nil client
     (a uid without a record). *)
@@ -316,10 +374,51 @@ Definition apply_client_filtering (ix : index) (dhcp : addr -> option bytes)
   end.
 
 (** index.rangeByName: names in sorted order (insertion sort, stable). *)
-Fixpoint ins_name (n : bytes) (l : list bytes) : list bytes :=
-  match l with
-  | [] => [n]
-  | x :: l' => match cmp_bytes n x with Lt => n :: l | _ => x :: ins_name n l' end
-  end.
 Definition range_by_name (ix : index) : list bytes :=
   fold_right ins_name [] (map (fun p => c_name (snd p)) (by_uid ix)).
+
+(** * DNSFilter.ApplyAdditionalFiltering (filtering/filter.go, blocked.go)
+
+    The path from the registry to the request's effective blocked-service
+    rules: the global list (unless the global schedule is pausing at [t]),
+    then the client's record, then, when the settings now carry a
+    BlockedServices value (only a client with UseOwnBlockedServices and a
+    non-nil record sets one on this path), the global rules are DROPPED and
+    the client's own list is applied unless the client's OWN schedule is
+    pausing at [t].  [zone_off z] is the offset function of zone number [z];
+    [known] are the service ids the binary has rules for (others are skipped
+    with a log line). *)
+Section Additional.
+  Variable zone_off : N -> Z -> Z.
+  Variable known : list bytes.
+
+  Definition paused (b : blocked) (t : Z) : bool :=
+    Schedule.contains (b_sched b) (zone_off (b_zone b)) t.
+
+  (** ApplyBlockedServicesList appended to an empty list *)
+  Definition services_of (ids : list bytes) : list bytes :=
+    filter (fun i => existsb (eqb_bytes i) known) ids.
+
+  Definition effective_services (b : blocked) (t : Z) : list bytes :=
+    if paused b t then [] else services_of (b_ids b).
+
+  Definition set_services (l : list bytes) (s : settings) : settings :=
+    {| s_client_name := s_client_name s; s_filtering := s_filtering s; s_safesearch := s_safesearch s;
+       s_safebrowsing := s_safebrowsing s; s_parental := s_parental s; s_blocked := s_blocked s;
+       s_tags := s_tags s; s_services := l |}.
+
+  (** ApplyBlockedServices: the global configuration [gb]. *)
+  Definition apply_blocked_services (gb : blocked) (t : Z) (s : settings) : settings :=
+    set_services (effective_services gb t) s.
+
+  Definition apply_additional_filtering (ix : index) (dhcp : addr -> option bytes)
+      (gb : blocked) (t : Z) (id : bytes) (a : addr) (g : settings) : option settings :=
+    match apply_client_filtering ix dhcp id a (apply_blocked_services gb t g) with
+    | None => None
+    | Some s =>
+        Some (match s_blocked s with
+              | None => s
+              | Some b => set_services (effective_services b t) s
+              end)
+    end.
+End Additional.
